@@ -93,6 +93,9 @@ class HarnessBuild:
 def classify(res):
     """returns (real_failures, proved_witnesses, n_ok, n_witness_ok)"""
     fails, vac, ok, wit = [], [], 0, 0
+    # CBMC reports properties that symex never reached (e.g. exception clean-up code of a call that cannot throw) as
+    # UNKNOWN when the run contains real failures, and as SUCCESS otherwise; such a property has no trace by construction.
+    any_failure = any(p['status'] == 'FAILURE' and not (p['desc'] or '').startswith('WITNESS:') for p in res['props'])
     for p in res['props']:
         desc = p['desc'] or ''
         if desc.startswith('WITNESS:'):
@@ -105,6 +108,8 @@ def classify(res):
                 ok += 1
             elif p['status'] == 'FAILURE':
                 fails.append(p)
+            elif p['status'] == 'UNKNOWN' and any_failure:
+                ok += 1
             else:
                 fails.append(p)
     return fails, vac, ok, wit
